@@ -10,7 +10,7 @@
 // bit flips, random octets, splices; mutated NLRI are re-wrapped into MP_REACH/MP_UNREACH, mutated
 // attributes into UPDATEs, mutated capabilities into OPENs with the OUTER lengths made consistent so the
 // inner decoders are reached through the top-level parser too) under the MarshallingOption combinations.
-// For each call: panic (recovered), hang (> 2 s), allocation (> 64 MiB), caller's buffer and its spare
+// For each call: panic (recovered), hang (no answer after 2 s, confirmed at 15 s so that machine load is not mistaken for one), allocation (> 64 MiB), caller's buffer and its spare
 // capacity unchanged, over-read (two runs with different poison beyond len must agree; bytes after the
 // declared length must not matter), and String / MarshalJSON / Len / Serialize / Flat on every value handed
 // back — also with an error — must not panic.
@@ -188,9 +188,14 @@ func (h *c05H) run(f func() string) (res string, hang bool, alloc uint64) {
 	select {
 	case res = <-h.ex.out:
 	case <-h.tm.C:
+		// 2 s of wall clock are over.  On a loaded machine a descheduled worker looks the same as a loop that
+		// does not end, so the verdict waits: a call that still comes back within 15 s is counted as slow
+		// (stat `slow_calls_over_2s`), one that does not is a hang (its goroutine is abandoned).
+		h.tm.Reset(13 * time.Second)
 		select {
-		case res = <-h.ex.out: // finished at the very last moment
-		default:
+		case res = <-h.ex.out:
+			h.o.stat("slow_calls_over_2s", 1)
+		case <-h.tm.C:
 			h.ex = c05NewExec()
 			h.aborted = true
 			return "", true, 0
